@@ -95,6 +95,78 @@ let () =
             m := Printf.sprintf "ok %d" (iz (m_endoff (z 4) (z ndds) (pairs 0 [])));
             Some OOther
         | _ -> Some OOther in
+      (* site models applied to the arguments the specification state supplies (the bookkeeping between the sites
+         is S's; the decision and the arithmetic are M's) *)
+      let ((h, v), d) = !st in
+      let okf b = if b then "ok" else "fail" in
+      (match op with
+       | Some (OReserve (tag, rf, len)) | Some (OPut (tag, rf, len)) when h.h_known && iz len > 0 ->
+           let blk hh = (match m_getdiskblock hh.h_eof len with
+                         | (Some _, e) -> Printf.sprintf "ok %d" (iz e)
+                         | (None, e) -> Printf.sprintf "fail %d" (iz e)) in
+           (match find_elem h tag rf with
+            | Some e when iz e.e_len >= 0 -> ()
+            | Some _ -> m := blk h
+            | None -> (match alloc_dd h with
+                       | None -> m := Printf.sprintf "fail %d" (iz h.h_eof)
+                       | Some h1 -> m := blk h1))
+       | Some (OAppendAt (tag, rf, pos, n)) when h.h_known ->
+           (match find_elem h tag rf with
+            | Some e when iz e.e_len >= 0 ->
+                (match m_hwrite true pos n e.e_off e.e_len h.h_eof with
+                 | HwOk (p, l, e') -> m := Printf.sprintf "ok %d %d %d %d" (iz n) (iz p) (iz l) (iz e')
+                 | HwFail -> m := Printf.sprintf "fail %d %d %d" (iz pos) (iz e.e_len) (iz h.h_eof)
+                 | HwConvert -> ())
+            | _ -> ())
+       | Some (OVgAdd (slot, _, _, n)) ->
+           (match get_vg v slot with
+            | Some (_, g) ->
+                let cur = ref g.g_n and ns = ref 0 and last = ref None in
+                for _ = 1 to iz n do
+                  (match m_vinsertpair !cur with
+                   | (Some r, c) -> incr ns; cur := c; last := Some r
+                   | (None, c) -> cur := c; last := None)
+                done;
+                (match !last with
+                 | Some r -> m := Printf.sprintf "ok %d %d" !ns (iz r)
+                 | None -> m := Printf.sprintf "fail %d" !ns)
+            | None -> ())
+       | Some (OVgSetName (_, len)) -> m := okf (m_vsetname len <> None)
+       | Some (OVgSetClass (_, len)) -> m := okf (m_vsetclass len <> None)
+       | Some (OVsFdefine (_, _, _, ty, order)) -> m := okf (m_vsfdefine (ntsize ty) order <> None)
+       | Some (OVsSetFields (slot, l)) ->
+           (match get_vs v slot with
+            | Some (_, s) when s.s_w && iz s.s_nf = 0 && iz s.s_nrec = 0 ->
+                let look (idx, _) =
+                  if iz idx = -1 then Some None
+                  else (match List.filter (fun dd -> iz dd.f_idx = iz idx) s.s_defs with
+                        | dd :: _ -> Some (Some (dd.f_order, dd.f_tsz))
+                        | [] -> None) in
+                let fs = List.map look l in
+                if List.for_all (fun x -> x <> None) fs then begin
+                  let fs' = List.map (function Some x -> x | None -> None) fs in
+                  match m_vssetfields fs' with
+                  | (true, (n, iv)) -> m := Printf.sprintf "ok %d %d" (iz n) (iz iv)
+                  | (false, (n, iv)) -> m := Printf.sprintf "fail %d %d" (iz n) (iz iv)
+                end
+            | _ -> ())
+       | Some (OVsSeek (slot, p)) ->
+           (match get_vs v slot with
+            | Some (_, s) when s.s_w && iz s.s_nf > 0 && s.s_aid ->
+                (match m_vsseek s.s_iv p with Some _ -> m := Printf.sprintf "ok %d" (iz p) | None -> m := "fail")
+            | _ -> ())
+       | Some (OVsWriteBig (slot, n)) ->
+           (match get_vs v slot with
+            | Some (_, s) when iz s.s_nf > 0 -> (match m_vswrite_total s.s_iv n with None -> m := "fail" | Some _ -> ())
+            | _ -> ())
+       | Some ONewRef when iz h.h_maxref >= 0 ->
+           (match m_newref_next h.h_maxref with Some r -> m := Printf.sprintf "ok %d" (iz r) | None -> ())
+       | Some (OSdCreate (_, nlen, rank)) -> m := okf (m_sdcreate_ok rank nlen)
+       | Some (OSdMax n) when iz d.d_size <> 0 ->
+           let slots = resize d.d_slots (let rec nat_of k = if k <= 0 then O else S (nat_of (k - 1)) in nat_of (iz d.d_size)) in
+           let (r, _) = m_reset_maxopen n d.d_sys (d_open_count d) slots in
+           m := (if iz r < 0 then "fail" else Printf.sprintf "ok %d" (iz r))
+       | _ -> ());
       (match op with
        | None -> Printf.printf "%d S history ; M history\n" !ln
        | Some o ->
